@@ -15,5 +15,6 @@ CONSTANTS
   MaxSignFail = 1
   History = FALSE
   Matrix = TRUE
+  Script = "none"
 INVARIANTS Emit
 CHECK_DEADLOCK FALSE
